@@ -9,6 +9,8 @@ package main
 //         I<p>    owner p calls instantGet        B<p>  owner p calls blockGet
 //         C<s>.<k> commit the k-th taken, un-committed event of stream s
 //         T       one round of streamer.heartbeat with eventTimeout = 0
+//         W<s>    put on stream s IMMEDIATELY followed by one heartbeat round (eventTimeout 0), both under
+//                 GOMAXPROCS(1): tryUnblock runs after put() and before the owner waiting in blockGet wakes
 //         U<s>.<t>[.<u>]  a burst: puts on streams s, t, u back to back while the process has ONE scheduler
 //                 thread (GOMAXPROCS(1)), so that a processor signalled by the first makeCharged cannot pop
 //                 before the later ones have charged: the charge, charge, pop order, without timing
@@ -309,6 +311,43 @@ func (run *strRun) apply(op string) bool {
 	if len(op) < 2 {
 		return false
 	}
+	if op[0] == 'W' {
+		id, err := strconv.Atoi(op[1:])
+		if err != nil || id < 0 || id >= len(run.nextOff) {
+			return false
+		}
+		// needs the owner of stream id asleep in blockGet, and no blocked stream that would hit
+		// tryUnblock's awaySeq != commitSeq Panicf
+		run.mu.Lock()
+		owner := false
+		ok := true
+		for _, p := range run.procs {
+			if p.st == "bget" {
+				if p.sid == id && p.bw {
+					owner = true
+				}
+				f := strings.Fields(run.v.StreamState(uint64(p.sid), ""))
+				if len(f) == 7 && f[2] != f[3] {
+					ok = false
+				}
+			}
+		}
+		if !owner || !ok {
+			run.mu.Unlock()
+			return false
+		}
+		run.nextOff[id]++
+		off := int64(id+1)*1000 + run.nextOff[id]
+		run.offSid[off] = id
+		run.mu.Unlock()
+		run.v.SetEventTimeout(0)
+		prev := runtime.GOMAXPROCS(1)
+		run.v.Put(uint64(id), "", off)
+		run.v.Heartbeat()
+		runtime.GOMAXPROCS(prev)
+		run.v.SetEventTimeout(time.Hour)
+		return true
+	}
 	if op[0] == 'U' {
 		var sids []int
 		for _, f := range strings.Split(op[1:], ".") {
@@ -554,6 +593,7 @@ func genStreams(w *bufio.Writer, rng *hx.Rng, tier string) {
 			fmt.Fprintf(w, "c04.stream %d %d %s\n", np, ns, strings.Join(ops2, " "))
 		}
 	}
+	genC04PutHeartbeat(w, rng, tier, "c04.stream")
 	// whole pipeline: a never-drying stream and another one charged in the same burst
 	nb := 4
 	if tier == "thorough" {
@@ -569,6 +609,63 @@ func genStreams(w *bufio.Writer, rng *hx.Rng, tier string) {
 			np, ns = rng.Range(3, 5), rng.Range(2, 5)
 		}
 		fmt.Fprintf(w, "c04.stream %d %d %s\n", np, ns, strings.Join(genStreamScript(rng, np, ns, rng.Range(8, 30)), " "))
+	}
+}
+
+// genC04PutHeartbeat: a put immediately followed by the streamer heartbeat while the stream's owner sleeps in
+// blockGet, on streams that have (0, 1, 2 …) consumed time-outs behind them. cmd = the command token to emit
+// (the family is also run under other properties).
+func genC04PutHeartbeat(w *bufio.Writer, rng *hx.Rng, tier string, cmd string) {
+	nrand := 12
+	if tier == "thorough" {
+		nrand = 200
+	}
+	// one stream, one processor: k consumed time-outs, then put+heartbeat, then the event must be got
+	for k := 0; k <= 3; k++ {
+		ops := []string{"P0", "J0", "A0", "I0", "C0.0", "B0"}
+		for i := 0; i < k; i++ {
+			ops = append(ops, "T", "B0")
+		}
+		ops = append(ops, "W0", "C0.0", "B0", "W0", "C0.0", "I0")
+		fmt.Fprintf(w, "%s 1 1 %s\n", cmd, strings.Join(ops, " "))
+	}
+	// two streams / two processors: the other stream is blocked too (gets a legitimate time-out in the same round)
+	fmt.Fprintf(w, "%s 2 2 P0 P1 J0 J1 A0 A1 I0 I1 C0.0 C1.0 B0 B1 T B0 B1 W0 C0.0 B0 W1 C1.0 I0 I1\n", cmd)
+	fmt.Fprintf(w, "%s 2 2 P0 P1 J0 J1 A0 A1 I0 I1 C0.0 C1.0 B0 B1 T B0 B1 T B0 B1 W1 W0 C0.0 C1.0 B0 B1 W0 W1\n", cmd)
+	for i := 0; i < nrand; i++ {
+		ns := rng.Range(1, 2)
+		var ops []string
+		for s := 0; s < ns; s++ {
+			ops = append(ops, fmt.Sprintf("P%d", s))
+		}
+		for s := 0; s < ns; s++ {
+			ops = append(ops, fmt.Sprintf("J%d", s))
+		}
+		for s := 0; s < ns; s++ {
+			ops = append(ops, fmt.Sprintf("A%d", s), fmt.Sprintf("I%d", s))
+		}
+		for s := 0; s < ns; s++ {
+			ops = append(ops, fmt.Sprintf("C%d.0", s), fmt.Sprintf("B%d", s))
+		}
+		for j := rng.Range(6, 18); j > 0; j-- {
+			s := rng.Intn(ns)
+			switch rng.Intn(7) {
+			case 0, 1:
+				ops = append(ops, "T")
+			case 2, 3:
+				ops = append(ops, fmt.Sprintf("W%d", s))
+			case 4:
+				ops = append(ops, fmt.Sprintf("P%d", s))
+			case 5:
+				ops = append(ops, fmt.Sprintf("C%d.%d", s, rng.Intn(2)))
+			default:
+				ops = append(ops, fmt.Sprintf("B%d", rng.Intn(ns)))
+			}
+			if rng.Chance(1, 2) {
+				ops = append(ops, fmt.Sprintf("C%d.0", s), fmt.Sprintf("B%d", rng.Intn(ns)))
+			}
+		}
+		fmt.Fprintf(w, "%s %d %d %s\n", cmd, ns, ns, strings.Join(ops, " "))
 	}
 }
 
